@@ -159,16 +159,24 @@ def compareGatesWith (atol : α) (idx : List Int) (g1 g2 : Gate α) : Except Err
   let b ← localMatrix idx [g2]
   pure (equivPhase atol a b)
 
-/-- `BlochSphereRotation.__eq__`: same qubit and `np.allclose` of the two operators (phase included). -/
+/-- `np.allclose(a, b, atol=ATOL)` on two 2×2 operators -/
+def close2 (atol : α) (a b : Mat α) : Bool :=
+  (List.range 4).all fun i =>
+    let x := a.d.getD i Cx.zero
+    let y := b.d.getD i Cx.zero
+    decide (Cx.abs (x - y) ≤ atol + (1e-5 : α) * Cx.abs y)
+
+/-- `np.allclose(m, m[0,0] * eye(2), atol=ATOL)`: the operator is a multiple of the identity -/
+def isScalar2 (atol : α) (a : Mat α) : Bool :=
+  close2 atol a (Mat.ofFn 2 fun i j => if i = j then a.get 0 0 else a.get 0 0 * Cx.zero)
+
+/-- `BlochSphereRotation.__eq__`: `np.allclose` of the two operators (phase included); on different qubits
+    two rotations are the same operation only if they are the same multiple of the identity. -/
 def bsrEq (atol : α) (q1 : Int) (ax1 : Vec3 α) (an1 ph1 : α) (q2 : Int) (ax2 : Vec3 α) (an2 ph2 : α) : Bool :=
-  if q1 != q2 then false
-  else
-    let a := can1 ax1 an1 ph1
-    let b := can1 ax2 an2 ph2
-    (List.range 4).all fun i =>
-      let x := a.d.getD i Cx.zero
-      let y := b.d.getD i Cx.zero
-      decide (Cx.abs (x - y) ≤ atol + (1e-5 : α) * Cx.abs y)
+  let a := can1 ax1 an1 ph1
+  let b := can1 ax2 an2 ph2
+  if q1 != q2 && !(isScalar2 atol a) then false
+  else close2 atol a b
 
 /-- `Gate.__eq__` dispatch: two plain rotations use `bsrEq`, everything else `compare_gates`. -/
 def gateEq (atol : α) : Gate α → Gate α → Except Err Bool
